@@ -65,8 +65,34 @@ static int via_cap()
   return 0;
 }
 
+// Scenario "via_repoint" (via_tail / via_do clause V3b): a peer already has a receiving session A; connectViaListener() to the same peer opens B.  The peer index
+// must keep pointing at A: the peer's next datagram arrives on A (not on B), and closing B must not cause a second accept while A is open.
+static int via_repoint()
+{
+  Rig r; TransportConfig cfg{};
+  if (!r.up(cfg)) { replay_io::ok("skipped: cannot start the engine / bind loopback UDP in this sandbox"); return 0; }
+  int p = peerSock(); sockaddr_in pa{}; socklen_t pl = sizeof(pa); ::getsockname(p, (sockaddr *)&pa, &pl);
+  ::sendto(p, "one", 3, 0, (sockaddr *)&r.to, sizeof(r.to));
+  if (!r.waitData(1)) replay_io::fail("via_repoint: first datagram not delivered");
+  SessionId A; { std::lock_guard<std::mutex> g(r.mx); A = r.evs.back().sid; }
+  SessionId B = r.eng->connectViaListener(r.lid, "127.0.0.1", ntohs(pa.sin_port)).value();
+  std::this_thread::sleep_for(200ms);
+  ::sendto(p, "two", 3, 0, (sockaddr *)&r.to, sizeof(r.to));
+  if (!r.waitData(2)) replay_io::fail("via_repoint: second datagram not delivered");
+  { std::lock_guard<std::mutex> g(r.mx); SessionId got = 0; for (auto &e : r.evs) if (e.kind == 'D') got = e.sid;
+    if (got != A) replay_io::fail("V3b after connectViaListener() to an already indexed peer its datagram arrived on session " + std::to_string(got) + " (the new via session " + std::to_string(B) + ") instead of its session " + std::to_string(A)); }
+  r.eng->close(B); std::this_thread::sleep_for(200ms);
+  ::sendto(p, "three", 5, 0, (sockaddr *)&r.to, sizeof(r.to));
+  if (!r.waitData(3)) replay_io::fail("via_repoint: third datagram not delivered");
+  if (r.count('A') != 1) replay_io::fail("V3b/U1 a second accept for a peer whose session " + std::to_string(A) + " is still open");
+  ::close(p);
+  replay_io::ok("via_repoint: the peer keeps its session across connectViaListener and close of the via session");
+  return 0;
+}
+
 int main(int argc, char **argv)
 {
+  if (argc > 1) { auto in0 = replay_io::load(argv[1]); if (in0.count("SCENARIO") && in0["SCENARIO"] == "via_repoint") return via_repoint(); }
   if (argc > 1) { auto in = replay_io::load(argv[1]); if (in.count("SCENARIO") && in["SCENARIO"] == "via_cap") return via_cap(); }
   if (TransportConfig{}.ioReadChunk < 65507) replay_io::fail("assumption of udp_recv violated: default TransportConfig::ioReadChunk < 65507 (largest UDP payload) - default configuration truncates");
   {
